@@ -94,6 +94,8 @@ FIXED = [
      "pastify() with set_sampling_period(0.5, 's'): TypeError from Fraction(float, int) in the sample duration (a regression of the F07e/F09e repairs, found when float periods joined the notations)"),
     ('F25', ['C09'], 'fix: dense-time online monitor returned nothing when a constant is a named sub-specification',
      "dense online: a named constant ('k = 3;' with 'out = x > k') returned [] for ever - the constant's one-time delivery was used up by the assertion k itself (side effect of the F17 repair)"),
+    ('F26', ['C20'], 'fix: explain() kept the explanations of an earlier evaluation',
+     'explain() after a second evaluate() on another log still reported (and merged) the intervals of the first log: a specification satisfied on the new log reported the old violation'),
 ]
 
 OPEN = [
